@@ -795,7 +795,14 @@ class HyperbandScheduler(
             # done if it fell on a rung level (i.e., ``keep_case`` is True)
             record = self._active_trials[trial_id]
             rem_result = record.reported_result
-            if (rem_result is not None) and (not record.keep_case):
+            # If the same resource level is reported once more, the searcher
+            # is not updated again (see ``on_trial_result``), so the case
+            # must stay
+            if (
+                (rem_result is not None)
+                and (not record.keep_case)
+                and rem_result[self._resource_attr] != result[self._resource_attr]
+            ):
                 self.searcher.remove_case(trial_id, **rem_result)
 
     def _update_searcher(
